@@ -1,0 +1,15 @@
+//go:build verif
+
+package stream
+
+import (
+	"github.com/couchbase/gocbcore/v10"
+
+	"github.com/Trendyol/go-dcp/models"
+)
+
+// VerifDispatchPersistSeqNo runs the unexported dispatchPersistSeqNo of a stream (the callback rollback mitigation is
+// given in Open). Only built with the verif tag.
+func VerifDispatchPersistSeqNo(s Stream, vbID uint16, seqNo gocbcore.SeqNo) {
+	s.(*stream).dispatchPersistSeqNo(&models.PersistSeqNo{VbID: vbID, SeqNo: seqNo})
+}
